@@ -54,7 +54,8 @@ TRUSTED = []
 def tasks(tier):
     # the hand-over uses ParticleArray.extract_particles / remove_particles /
     # align_particles: their contracts (C06) are re-proved here
-    return ['zones', 'wiring', 'inlet', 'outlet', 'mirror', 'canary',
+    return ['zones', 'wiring', 'inlet', 'outlet', 'mirror', 'length',
+            'canary',
             'dep:C06:extract', 'dep:C06:remove', 'dep:C06:align',
             'dep:C06:add']
 
@@ -65,6 +66,8 @@ def run_task(task, ctx):
         return deps.run_dep(task, ctx)
     repo = Repo()
     m = repo.module(MOD)
+    if task == 'length':
+        return task_length(ctx, repo, m)
     if task == 'zones':
         return task_zones(ctx, repo, m)
     if task == 'wiring':
@@ -577,3 +580,85 @@ def task_mirror(ctx, repo):
         '-1. *', '-1.0 *')
     ctx.prove('mirror.update.order', [Obligation(
         'order', [], z3.BoolVal(bool(ok)), W)], info=str(seq)[:400])
+
+
+# ---------------------------------------------------------------- zone length
+def task_length(ctx, repo, m):
+    """InletOutletManager._update_inlet_outlet_info: the zone length of the
+    matching inlet/outlet is |n . (extent + dx)| with extent = max - min of
+    the particle coordinates -- one particle layer has length dx, not 0 --
+    and no other zone's record is touched."""
+    cls = 'InletOutletManager'
+    fn = m.methods(cls)['_update_inlet_outlet_info']
+    W = m.path
+    Mx = {a: z3.Real('max_' + a) for a in 'xyz'}
+    mn_ = {a: z3.Real('min_' + a) for a in 'xyz'}
+    dx = z3.Real('dx')
+    nrm = [z3.Real('n%d' % i) for i in range(3)]
+
+    class Col(object):
+        def __init__(self, a):
+            self.a = a
+
+        def vc_clone(self, memo, _c=None):
+            return self
+    pa = SymObject(None, dict(name='inlet', x=Col('x'), y=Col('y'),
+                              z=Col('z')), 'pa')
+    info = SymObject(None, dict(dx=dx, pa_name='inlet', normal=list(nrm),
+                                length=z3.Real('old_len')), 'info')
+    other = SymObject(None, dict(dx=dx, pa_name='outlet', normal=list(nrm),
+                                 length=z3.Real('other_len')), 'other')
+    obj = SymObject(cls, dict(inletinfo=[info], outletinfo=[other]), 'self')
+    obj.module = m.name
+    ex = Executor(repo, m, qualname=cls + '._update_inlet_outlet_info',
+                  merge=True, externals={
+                      'max': lambda e, s_, a, k, n: Mx[a[0].a],
+                      'min': lambda e, s_, a, k, n: mn_[a[0].a]})
+    pre = [Mx[a] >= mn_[a] for a in 'xyz'] + [dx > 0]
+    try:
+        outs = ex.exec_function(fn, dict(self=obj, pa=pa), State(pc=pre))
+    except VCError as e:
+        ctx.outside('length', str(e))
+        return
+    ctx.function(m, fn, cls + '._update_inlet_outlet_info', ex.dropped)
+    obs = []
+    for i_, o in enumerate(outs):
+        me = o.state.env['self']
+        got = me.attrs['inletinfo'][0].attrs['length']
+        want = sum((Mx[a] - mn_[a] + dx) * nrm[k] for k, a in
+                   enumerate('xyz'))
+        want = z3.If(want >= 0, want, -want)
+        oth = me.attrs['outletinfo'][0].attrs['length']
+        obs.append(Obligation('length.%d' % i_, o.pc, z3.And(
+            S.to_real(got) == want,
+            z3.BoolVal(S.same(oth, other.attrs['length']))), W,
+            extra=dict(backends=['z3'])))
+
+    def rp(model, ob):
+        script = r"""
+import json, sys, importlib.util
+d = json.load(sys.stdin)
+spec = importlib.util.spec_from_file_location('pysph.sph.bc.iom_ut', d['root'] + '/pysph/sph/bc/inlet_outlet_manager.py')
+mod = importlib.util.module_from_spec(spec); mod.__package__ = 'pysph.sph.bc'; spec.loader.exec_module(mod)
+import numpy as np
+class PA:
+    name = 'inlet'
+    x = np.array([0.05, 0.05, 0.05]); y = np.array([0.0, 0.1, 0.2]); z = np.zeros(3)
+class Info: pass
+info = Info(); info.dx = 0.1; info.pa_name = 'inlet'; info.normal = [-1.0, 0.0, 0.0]; info.length = 0.0
+man = mod.InletOutletManager.__new__(mod.InletOutletManager)
+man.inletinfo = [info]; man.outletinfo = []
+man._update_inlet_outlet_info(PA())
+bad = None
+if abs(info.length - 0.1) > 1e-12:
+    bad = dict(zone='one particle layer at x = 0.05, dx = 0.1, normal -x', length=float(info.length), documented=0.1)
+print(json.dumps(dict(bad=bad)))
+"""
+        from pyvc.repo import REPO_ROOT
+        try:
+            r = native.run_venv(script, dict(root=REPO_ROOT))
+        except Exception as e_:
+            return dict(reproduced=False, note=str(e_)[-300:])
+        return dict(reproduced=bool(r['bad']), **(r['bad'] or {}))
+    ctx.prove('length.zone_length_is_extent_plus_dx_along_normal', obs,
+              replay=rp, use_nf=False)
